@@ -284,6 +284,7 @@ func (c *ClientConn) Receive(reader io.Reader) error {
 		}
 	} else {
 		request := c.pending.loadAndDelete(raw.Header.StreamId)
+		vhook("recv", c, raw.Header.StreamId, request, raw.Header.OpCode)
 		if request == nil {
 			return errors.New("invalid stream")
 		}
@@ -333,6 +334,7 @@ func (c *ClientConn) maybePrepareAndExecute(request Request, raw *frame.RawFrame
 				prepare:     prepare.PreparedFrame,
 				origRequest: request,
 			})
+			vhook("reprepare", c, request, err)
 			if err != nil {
 				c.logger.Error("failed to prepare query after receiving an unprepared error response",
 					zap.String("host", c.conn.RemoteAddr().String()),
@@ -370,6 +372,7 @@ func (c *ClientConn) maybeCachePrepared(request Request, raw *frame.RawFrame) {
 				zap.Stringer("response", msg))
 			return
 		}
+		vhook("cache.store", c, msg.PreparedQueryId)
 		c.preparedCache.Store(hex.EncodeToString(msg.PreparedQueryId),
 			&PreparedEntry{
 				request.Frame().(*frame.RawFrame), // Store frame so we can re-prepare
@@ -380,20 +383,25 @@ func (c *ClientConn) maybeCachePrepared(request Request, raw *frame.RawFrame) {
 func (c *ClientConn) Closing(err error) {
 	c.closingMu.Lock()
 	c.closing = true
+	vhook("closing.set", c, c.pending)
 	c.pending.closing(err)
 	c.closingMu.Unlock()
+	vhook("closing.done", c)
 }
 
 func (c *ClientConn) addToPending(request Request) (int16, error) {
 	c.closingMu.RLock()
 	defer c.closingMu.RUnlock()
 	if c.closing {
+		vhook("pending.refuse", c, request, Closed)
 		return 0, Closed
 	}
 	stream := c.pending.store(request)
 	if stream < 0 {
+		vhook("pending.refuse", c, request, StreamsExhausted)
 		return 0, StreamsExhausted
 	}
+	vhook("pending.store", c, stream, request)
 	return stream, nil
 }
 
@@ -403,11 +411,13 @@ func (c *ClientConn) Send(request Request) error {
 		return err
 	}
 
+	vhook("send.write", c, stream, request)
 	err = c.conn.Write(&requestSender{
 		request: request,
 		stream:  stream,
 		conn:    c,
 	})
+	vhook("send.wrote", c, stream, request, err)
 	if err == nil {
 		atomic.AddInt32(&c.inflight, 1)
 	}
@@ -494,9 +504,11 @@ func (r *requestSender) Send(writer io.Writer) error {
 	switch frm := r.request.Frame().(type) {
 	case *frame.Frame:
 		frm.Header.StreamId = r.stream
+		vhook("sender.stamped", r.conn, r.stream, r.request, frm.Header)
 		return r.conn.codec.EncodeFrame(frm, writer)
 	case *frame.RawFrame:
 		frm.Header.StreamId = r.stream
+		vhook("sender.stamped", r.conn, r.stream, r.request, frm.Header)
 		return r.conn.codec.EncodeRawFrame(frm, writer)
 	default:
 		return errors.New("unhandled frame type")
